@@ -95,7 +95,7 @@ def alloc_model(ck, quick):
                     json.dumps(mm['history'][-5:-1])), dict(mm, build=flavour))
         if jobsl:
             ck.sample(dict(kind='alloc job', build=flavour, job={k: v for k, v in jobsl[0].items() if k != 'indices'}))
-    if not ck.notes.get('alloc_plain_faulted_calls') or not ck.notes.get('alloc_plain_overfull_states'):
+    if (not ck.notes.get('alloc_plain_faulted_calls') or not ck.notes.get('alloc_plain_overfull_states')) and not ck.violations:
         common.machinery_failure('the exact replay exercised no failing call / no over-long node')
 
 
